@@ -16,9 +16,10 @@ from mc.common import reset_frame_state, replay_via
 
 ID = 'C14'
 LEVEL = 'model_checking'
+PRELOAD = ['frame.geometry.geometry', 'frame.netlist.netlist', 'frame.die.die', 'frame.allocation.allocation', 'ruamel.yaml', 'mc.common', 'tools.spectral.spectral']
 RULE = ("environment-answer enumeration: every sequence of answers of the random source (menu {0.13, 0.88}, 3 answers {0.13, 0.52, 0.88} in thorough, each "
         "shifted by a distinct per-draw offset) for the 2*m draws of a trial with m movable modules x netlist topologies {path, cycle, star, clique, 3-pin "
-        "hyperedge + edges} on 4-5 modules x masses {equal, unequal} x {no fixed, one fixed, one hard two-rectangle module} x dies {6x4, 4x4, 10x3} x trials {1, 2}. "
+        "hyperedge + edges} on 4-5 modules x masses {equal, unequal} x {no fixed, one fixed, one small / one large hard two-rectangle module, fixed terminals on the die edges} x dies {6x4, 4x4, 10x3} x trials {1, 2}. "
         "states = distinct (configuration, answer sequence) executions; transitions = draws answered.")
 ASSUMPTIONS = ["the menu fixes on which side and in which order modules start, which determines the eigenvector the power iteration converges to; "
                "two draws never coincide (probability-0 events for a real stream)",
@@ -63,7 +64,7 @@ def build(case):
     W, H = case['die']
     n = case['n']
     masses = [1.0] * n if case['masses'] == 'equal' else [0.5 + 0.7 * i for i in range(n)]
-    scale = W * H / 24.0
+    scale = W * H / 24.0 * case.get('scale', 1.0)
     mods = {}
     for i in range(n):
         mods[f'M{i}'] = {'area': masses[i] * scale}
@@ -75,12 +76,30 @@ def build(case):
     elif extra == 'hard':
         mods['Hd'] = {'hard': True, 'rectangles': [[W * 0.5, H * 0.5, W / 6, H / 12], [W * 0.5, H * 0.5 + H / 12, W / 12, H / 12]]}
         names.append('Hd')
+    elif extra == 'bighard':
+        # a large L-shaped macro (rectangles of very different areas): it is usually the module that the
+        # normalisation pushes against the die border
+        mods['Hd'] = {'hard': True, 'rectangles': [[W * 0.5, H * 0.5, W * 0.5, H * 0.5],
+                                                   [W * 0.5 - W * 0.2, H * 0.5 + H * 0.25 + H * 0.03, W * 0.1, H * 0.06]]}
+        names.append('Hd')
+    elif extra == 'mterm':
+        # a movable terminal (no area, no rectangles)
+        mods['Tm'] = {'terminal': True, 'center': [W * 0.3, H * 0.3]}
+        names.append('Tm')
+    elif extra == 'pins':
+        # fixed terminals exactly on the left and the bottom edge of the die (coordinate 0)
+        mods['P0'] = {'terminal': True, 'fixed': True, 'center': [0, H * 0.4]}
+        mods['P1'] = {'terminal': True, 'fixed': True, 'center': [W * 0.6, 0]}
+        names.extend(['P0', 'P1'])
     nets = []
     for e in TOPOLOGIES[case['topo']](n):
         nets.append([names[i] for i in e] + ([1.5] if len(e) == 3 else []))
-    if extra in ('fixed', 'hard'):
+    if extra in ('fixed', 'hard', 'bighard', 'mterm'):
         nets.append([names[-1], 'M0'])
         nets.append([names[-1], f'M{n - 1}', 2])
+    elif extra == 'pins':
+        nets.append(['P0', 'M0'])
+        nets.append(['P1', f'M{n - 1}', 2])
     return Spectral({'Modules': mods, 'Nets': nets})
 
 
@@ -101,6 +120,8 @@ def check_case(case, res):
     reset_frame_state()
     nl = build(case)
     before = snapshot(nl)
+    # precondition of the statement: every disc fits in the die (a harness bug otherwise)
+    assert all(math.sqrt(m.area() / math.pi) < min(W, H) / 2 for m in nl.modules), 'C14 harness: a disc does not fit in the die'
     menu = Menu(case['answers'])
     saved = alg.random
     alg.random = menu
@@ -126,7 +147,7 @@ def check_case(case, res):
             if rects != b[4]:
                 res.violation('fixed-moved', case, attrs, b[4], rects)
             continue
-        if m.is_hard:
+        if m.is_hard and not m.is_terminal:
             # rigid: same shapes, same pairwise offsets
             if len(rects) != len(b[4]) or any(abs(r[2] - q[2]) > tol or abs(r[3] - q[3]) > tol for r, q in zip(rects, b[4])):
                 res.violation('hard-reshaped', case, attrs, b[4], rects)
@@ -168,6 +189,12 @@ def configurations(tier):
         for (t, ms, ex) in base[:3]:
             cfgs.append(dict(topo=t, masses=ms, extra=ex, die=[6, 4], n=4, trials=2, menu=2, reduced=True))
         cfgs.append(dict(topo='cycle', masses='equal', extra='fixed', die=[10, 3], n=5, trials=1, menu=2, reduced5=True))
+        cfgs.append(dict(topo='path', masses='unequal', extra='bighard', die=[6, 4], n=4, trials=1, menu=2, reduced5=True))
+        cfgs.append(dict(topo='star', masses='equal', extra='bighard', die=[4, 4], n=4, trials=1, menu=2, reduced5=True))
+        cfgs.append(dict(topo='cycle', masses='unequal', extra='pins', die=[6, 4], n=4, trials=1, menu=2))
+        cfgs.append(dict(topo='path', masses='equal', extra='mterm', die=[6, 4], n=4, trials=1, menu=2, reduced5=True))
+        # the same graph and die with other areas (placed after the ones above in the same shard)
+        cfgs.append(dict(topo='path', masses='unequal', extra='none', die=[6, 4], n=4, trials=1, menu=2, scale=3.0, reduced4=True))
     else:
         for t in TOPOLOGIES:
             for ms in ('equal', 'unequal'):
@@ -183,7 +210,7 @@ def configurations(tier):
 
 def answer_sequences(cfg):
     fr = [0.13, 0.88] if cfg['menu'] == 2 else [0.13, 0.52, 0.88]
-    m = cfg['n'] + (1 if cfg['extra'] == 'hard' else 0)          # movable modules (a hard module is movable)
+    m = cfg['n'] + (1 if cfg['extra'] in ('hard', 'bighard', 'mterm') else 0)          # movable modules (a hard module is movable)
     draws = 2 * m
     if cfg.get('reduced'):
         # two trials: all answer patterns for the x draws of both trials, y draws alternate
@@ -193,6 +220,10 @@ def answer_sequences(cfg):
                 x2 = list(xs2) + [fr[1]] * (m - len(xs2))
                 y = [fr[i % 2] for i in range(m)]
                 yield x1 + y + x2 + list(reversed(y))
+        return
+    if cfg.get('reduced4'):
+        for seq in itertools.product(fr, repeat=4):
+            yield list(seq) + [fr[(i + 1) % 2] for i in range(draws - 4)]
         return
     if cfg.get('reduced5') or draws > 8 and cfg['menu'] == 2 and cfg['n'] == 4:
         # 5 movable: enumerate the first 8 draws, alternate the rest
@@ -204,24 +235,24 @@ def answer_sequences(cfg):
 
 
 def shards(tier):
-    out = []
-    for ci, cfg in enumerate(configurations(tier)):
-        parts = 8 if tier == 'quick' else 32
-        for p in range(parts):
-            out.append(dict(cfg=cfg, part=p, parts=parts))
-    return out
+    parts = 64 if tier == 'quick' else 1440
+    return [dict(part=p, parts=parts) for p in range(parts)]
 
 
 def run_shard(shard, tier, res):
-    cfg = shard['cfg']
+    # one shard = slice `part` of the answer sequences of EVERY configuration, one configuration after the other in
+    # the same process: netlists with the same size and die but other areas follow each other (a stale cache shows)
     last = None
-    for i, seq in enumerate(answer_sequences(cfg)):
-        if i % shard['parts'] != shard['part']:
-            continue
-        case = dict(topo=cfg['topo'], masses=cfg['masses'], extra=cfg['extra'], die=cfg['die'], n=cfg['n'],
-                    trials=cfg['trials'], answers=seq)
-        check_case(case, res)
-        last = case
+    for cfg in configurations(tier):
+        for i, seq in enumerate(answer_sequences(cfg)):
+            if i % shard['parts'] != shard['part']:
+                continue
+            case = dict(topo=cfg['topo'], masses=cfg['masses'], extra=cfg['extra'], die=cfg['die'], n=cfg['n'],
+                        trials=cfg['trials'], answers=seq)
+            if cfg.get('scale'):
+                case['scale'] = cfg['scale']
+            check_case(case, res)
+            last = case
     if last:
         res.samples.append(last)
 
